@@ -1,3 +1,3 @@
 INIT Init
 NEXT Next
-INVARIANTS Recoverable SaveCompletes
+INVARIANTS Recoverable SaveCompletes NeverRefuses
